@@ -3,6 +3,7 @@ package engine
 import (
 	"fmt"
 	"os"
+	"os/exec"
 	"path/filepath"
 	"regexp"
 	"strings"
@@ -61,14 +62,49 @@ func C14(c *Ctx) {
 		sub := *c
 		sub.Seed = c.Seed*1000 + int64(i)
 		logPath := filepath.Join(raceDir, fmt.Sprintf("run%d", i))
+		// a racy runtime makes the detector write a report per access pair: the log is capped (the probe is stopped
+		// once it exceeds 32 MiB; the reports written so far are judged and no further race run is made)
+		capped := false
+		stop := make(chan struct{})
+		watch := func(prefix string) {
+			t := time.NewTicker(300 * time.Millisecond)
+			defer t.Stop()
+			for {
+				select {
+				case <-stop:
+					return
+				case <-t.C:
+					var size int64
+					fs, _ := filepath.Glob(prefix + ".*")
+					for _, f := range fs {
+						if st, err := os.Stat(f); err == nil {
+							size += st.Size()
+						}
+					}
+					if size > 32<<20 {
+						capped = true
+						exec.Command("pkill", "-KILL", "-f", filepath.Join(sc.Dir, "bin", "schedmon")).Run()
+						return
+					}
+				}
+			}
+		}
+		go watch(logPath)
 		pr := RunProbe(&sub, sc, "schedmon", []string{"-race"}, []string{"GORACE=halt_on_error=0 log_path=" + logPath}, []string{"-mode", "par"}, 30*time.Minute, fmt.Sprintf("schedmon-par%d", i))
-		if pr == nil {
+		close(stop)
+		if pr == nil && !capped {
 			return
+		}
+		if capped {
+			c.Rep.Count("race_runs_stopped_at_log_cap", 1)
+			runs = i + 1
 		}
 		// and a fresh process whose goroutines are the very first users of the runtime (no warm-up)
 		coldLog := filepath.Join(raceDir, fmt.Sprintf("cold%d", i))
-		if pc := RunProbe(&sub, sc, "schedmon", []string{"-race"}, []string{"GORACE=halt_on_error=0 log_path=" + coldLog}, []string{"-mode", "cold"}, 30*time.Minute, fmt.Sprintf("schedmon-cold%d", i)); pc == nil {
-			return
+		if !capped {
+			if pc := RunProbe(&sub, sc, "schedmon", []string{"-race"}, []string{"GORACE=halt_on_error=0 log_path=" + coldLog}, []string{"-mode", "cold"}, 30*time.Minute, fmt.Sprintf("schedmon-cold%d", i)); pc == nil {
+				return
+			}
 		}
 		files, _ := filepath.Glob(logPath + ".*")
 		more, _ := filepath.Glob(coldLog + ".*")
